@@ -205,10 +205,17 @@ func (w *World) Explore(fn *ssa.Function, opt Options) *Result {
 			for _, v := range pr.path.Violations {
 				k := v.Kind + "|" + v.Label + "|" + strings.Join(v.Regions, ",")
 				v.Harness = fn.Name()
-				if !seenViol[k] || len(res.Violations) < opt.MaxViolations {
-					if !seenViol[k] {
-						seenViol[k] = true
-						res.Violations = append(res.Violations, v)
+				if !seenViol[k] {
+					seenViol[k] = true
+					res.Violations = append(res.Violations, v)
+				} else if !v.Scheduled {
+					// prefer a counterexample that needs no particular schedule (it replays natively)
+					for i := range res.Violations {
+						o := &res.Violations[i]
+						if o.Scheduled && o.Kind+"|"+o.Label+"|"+strings.Join(o.Regions, ",") == k {
+							*o = v
+							break
+						}
 					}
 				}
 			}
